@@ -1000,6 +1000,46 @@ fn check_image(case: &ImageCase, ctx: &mut CaseCtx<'_>) -> Result<(), String> {
             img.store.set(&img.files[b].name, img.files[b].bytes.clone());
         }
     }
+    // ---- a crash inside a rotation left a newest file without a (whole) header: restart,
+    //      append one entry, recover: everything plus the new entry, no file re-created
+    if !big {
+        let next = img.files.iter().map(|f| f.seq).max().unwrap_or(0) + 1;
+        for (vi, junk) in [Vec::new(), b"RWAL\x01\0\0".to_vec(), vec![0xabu8; 16], vec![0xffu8; 33]].into_iter().enumerate() {
+            evals += 1;
+            let st = img.store.deep_copy();
+            st.set(&file_name(next), junk.clone());
+            let mfs = (case.max_file_size as usize).max(WAL_HEADER_SIZE + 1);
+            let extra = EntrySpec {
+                data: b"after-restart".to_vec(),
+                stamp: 3,
+                restart_before: false,
+                kind: "raw".into(),
+                big_len: 0,
+            };
+            let r = catch(|| WalRotator::new(st.clone(), mfs).and_then(|mut r| r.append(&wal_entry(&extra))))
+                .map_err(|p| format!("restart with a headerless newest file (variant {}) panicked: {}", vi, p))?
+                .map_err(|e| format!("restart with a headerless newest file (variant {}): append failed: {}", vi, e))?;
+            let got = recover(&st)?;
+            let mut want: Vec<E> = all.clone();
+            want.push((extra.data.clone(), extra.stamp));
+            let mut a = got.clone();
+            let mut b = want.clone();
+            a.sort();
+            b.sort();
+            if a != b || !st.replaced().is_empty() {
+                return Err(format!(
+                    "newest file {} holds {} bytes without a valid header (crash inside a rotation); after restart + one append (went to sequence {}) recovery returns {} entries, expected {}; files re-created over existing content: {:?}; files: {:?}",
+                    file_name(next),
+                    junk.len(),
+                    r,
+                    got.len(),
+                    want.len(),
+                    st.replaced(),
+                    st.names()
+                ));
+            }
+        }
+    }
     ctx.add_evaluations(evals);
     Ok(())
 }
@@ -1293,6 +1333,10 @@ enum Step {
     Restart,
     /// crash: bytes not covered by an fsync of their file are lost, then restart
     Crash,
+    /// crash inside a rotation: as `Crash`, and the newest file -- if nothing of it was ever
+    /// fsynced -- is left headerless: 0 = empty, 1..=15 = that many bytes of its header,
+    /// 16 = sixteen garbage bytes, 17 = header with an unknown version, 18 = 40 bytes of 0xff
+    CrashTorn(u8),
 }
 
 #[derive(Clone, Debug, Serialize, Deserialize)]
@@ -1308,6 +1352,7 @@ fn life_case() -> impl Strategy<Value = LifeCase> {
         3 => any::<u16>().prop_map(Step::Truncate),
         3 => Just(Step::Restart),
         1 => Just(Step::Crash),
+        2 => (0u8..=18).prop_map(Step::CrashTorn),
     ];
     (
         prop_oneof![3 => Just(17u32), 4 => 40u32..200, 2 => 200u32..600, 1 => Just(1u32 << 24)],
@@ -1362,7 +1407,7 @@ fn check_life(c: &LifeCase, ctx: &mut CaseCtx<'_>) -> Result<(), String> {
                     seen.insert(stamp);
                     if active != Some(seq) {
                         // the rotator opened a new file
-                        if files.contains_key(&seq) {
+                        if files.get(&seq).map(|es| !es.is_empty()).unwrap_or(false) || store.replaced().contains(&file_name(seq)) {
                             return Err(format!(
                                 "step {}: the rotator created {} although that file exists and holds entries with stamps {:?} (its content is replaced)\n  history: {}\n  files before: {}",
                                 si,
@@ -1435,8 +1480,8 @@ fn check_life(c: &LifeCase, ctx: &mut CaseCtx<'_>) -> Result<(), String> {
                     }
                 }
             }
-            Step::Restart | Step::Crash => {
-                if matches!(step, Step::Crash) {
+            Step::Restart | Step::Crash | Step::CrashTorn(_) => {
+                if matches!(step, Step::Crash | Step::CrashTorn(_)) {
                     kinds.insert("crash");
                     for (s, es) in files.iter_mut() {
                         let keep = store.synced_len(&file_name(*s));
@@ -1445,6 +1490,30 @@ fn check_life(c: &LifeCase, ctx: &mut CaseCtx<'_>) -> Result<(), String> {
                     drop(std::mem::replace(&mut rot, WalRotator::new(ImgStore::new(), mfs).map_err(|e| e.to_string())?));
                     store.simulate_crash();
                     history.push("crash+restart".into());
+                    if let Step::CrashTorn(mode) = step {
+                        if let Some(name) = store.names().into_iter().max_by_key(|n| {
+                            n.strip_prefix("wal-").and_then(|x| x.strip_suffix(".wal")).and_then(|x| u64::from_str_radix(x, 16).ok()).unwrap_or(0)
+                        }) {
+                            if store.get(&name).map(|b| b.is_empty()).unwrap_or(false) {
+                                let seq = name.strip_prefix("wal-").and_then(|x| x.strip_suffix(".wal")).and_then(|x| u64::from_str_radix(x, 16).ok()).unwrap_or(0);
+                                let mut header = b"RWAL\x01\0\0\0".to_vec();
+                                header.extend_from_slice(&seq.to_le_bytes());
+                                let bytes = match *mode {
+                                    0 => Vec::new(),
+                                    k @ 1..=15 => header[..k as usize].to_vec(),
+                                    16 => vec![0xab; 16],
+                                    17 => {
+                                        header[4] = 9;
+                                        header
+                                    }
+                                    _ => vec![0xff; 40],
+                                };
+                                store.set(&name, bytes);
+                                kinds.insert("crash_newest_headerless");
+                                history.push(format!("newest file {} left headerless (mode {})", name, mode));
+                            }
+                        }
+                    }
                 } else {
                     kinds.insert("restart");
                     history.push("restart".into());
